@@ -245,29 +245,20 @@ Print Assumptions C05_inline_cells_den.
    at least one number is written - a TR number whose card is not empty, three numbers even if
    all zero, or more - the result is never the empty tuple, so pot_fill's truthiness test takes
    it for the explicit fill transformation it is (place_filler: FILL transformation before
-   TRCL); an un-starred keyword without numbers yields () *)
+   TRCL); a FILL keyword without numbers, starred or not, yields () and pot_fill falls back to
+   the container's TRCL *)
 Theorem C05_explicit_transformation_not_empty :
-  forall star trid params table,
+  forall is_fill star trid params table,
   (forall k c, dget k table = Some c -> c <> []) ->
-  (params <> [] -> forall l, parse_tr_params star trid params table = Ok (TSList l) -> l <> []) /\
-  parse_tr_params false trid [] table = Ok (TSList []).
+  (params <> [] ->
+   forall l, parse_tr_params is_fill star trid params table = Ok (TSList l) -> l <> []) /\
+  parse_tr_params true star trid [] table = Ok (TSList []).
 Proof.
-  intros star trid params table Htab. split.
-  - intros Hne l H. exact (parse_tr_params_explicit star trid params table l Hne Htab H).
-  - reflexivity.
+  intros is_fill star trid params table Htab. split.
+  - intros Hne l H. exact (parse_tr_params_explicit is_fill star trid params table l Hne Htab H).
+  - apply parse_tr_params_fill_none.
 Qed.
 Print Assumptions C05_explicit_transformation_not_empty.
-
-(* ... but a STARRED keyword without numbers yields the 12-entry identity (the code sends the
-   empty list through normalize_transform): `*FILL=n` is not treated as "a FILL without
-   transformation", finding starred_fill_without_transformation *)
-Theorem C05_starred_keyword_without_numbers_refuted :
-  exists star trid table l,
-    parse_tr_params star trid [] table = Ok (TSList l) /\ l <> [].
-Proof.
-  exists true, 0, [], identity12. split; [reflexivity | discriminate].
-Qed.
-Print Assumptions C05_starred_keyword_without_numbers_refuted.
 
 (* non-vacuity: the executable instance of the correspondence check obeys both laws (points on a
    line), and a deck with two levels of universes (fill transformation at level 0, TRCL-only
